@@ -26,29 +26,33 @@ func envInt(name string, def int) int {
 
 // RunLine is one line of worker output: the outcome of one simulated run.
 type RunLine struct {
-	Run       int               `json:"run"`
-	Job       int               `json:"job"`
-	Steps     int               `json:"steps"`
-	Incs      int               `json:"incs"`
-	Sim       float64           `json:"sim_s"`
-	LogHash   string            `json:"log"`
-	StateHash string            `json:"state"`
-	Writes    int               `json:"writes"`
-	Hooks     int               `json:"hooks"`
-	Faults    map[string]int    `json:"faults,omitempty"`
-	Probes    map[string]int    `json:"probes,omitempty"`
-	Known     map[string]int    `json:"known,omitempty"`
-	Violation string            `json:"violation,omitempty"`
-	Prop      string            `json:"prop,omitempty"`
-	Class     string            `json:"class,omitempty"`
-	VStep     int               `json:"vstep,omitempty"`
-	Sig       map[string]string `json:"sig,omitempty"`
-	Budget    string            `json:"budget,omitempty"`
-	Cfg       map[string]string `json:"cfg,omitempty"`
-	TapeLen   int               `json:"tape_len"`
-	Tape      []uint32          `json:"tape,omitempty"`
-	Log       []string          `json:"eventlog,omitempty"`
-	Sample    []string          `json:"sample,omitempty"`
+	Run          int               `json:"run"`
+	Job          int               `json:"job"`
+	Steps        int               `json:"steps"`
+	Incs         int               `json:"incs"`
+	Sim          float64           `json:"sim_s"`
+	LogHash      string            `json:"log"`
+	StateHash    string            `json:"state"`
+	Writes       int               `json:"writes"`
+	Hooks        int               `json:"hooks"`
+	Faults       map[string]int    `json:"faults,omitempty"`
+	Probes       map[string]int    `json:"probes,omitempty"`
+	Known        map[string]int    `json:"known,omitempty"`
+	Interactions string            `json:"interactions,omitempty"`
+	Pos          int               `json:"pos,omitempty"`
+	Kind         string            `json:"kind,omitempty"`
+	NotFired     bool              `json:"not_fired,omitempty"`
+	Violation    string            `json:"violation,omitempty"`
+	Prop         string            `json:"prop,omitempty"`
+	Class        string            `json:"class,omitempty"`
+	VStep        int               `json:"vstep,omitempty"`
+	Sig          map[string]string `json:"sig,omitempty"`
+	Budget       string            `json:"budget,omitempty"`
+	Cfg          map[string]string `json:"cfg,omitempty"`
+	TapeLen      int               `json:"tape_len"`
+	Tape         []uint32          `json:"tape,omitempty"`
+	Log          []string          `json:"eventlog,omitempty"`
+	Sample       []string          `json:"sample,omitempty"`
 }
 
 // Job is one unit of work read from DST_JOBS (one JSON object per line).
@@ -58,6 +62,11 @@ type Job struct {
 	Run  int      `json:"run"`
 	Tape []uint32 `json:"tape"` // non-nil: replay this tape instead of generating from (seed, run)
 	Full bool     `json:"full"` // include tape and event log in the output
+	// fault enumeration: Ref = reference run (record the interaction sequence, no fault);
+	// Kind != "" = inject Kind at the Pos-th in-sync interaction of the armed stage
+	Ref  bool   `json:"ref,omitempty"`
+	Pos  int    `json:"pos,omitempty"`
+	Kind string `json:"kind,omitempty"`
 }
 
 func TestWorker(t *testing.T) {
@@ -135,11 +144,23 @@ func TestWorker(t *testing.T) {
 		} else {
 			tape = sim.NewSeedTape(j.Seed, uint64(j.Run))
 		}
-		res := sim.RunScenario(t, mk(), tape, j.Seed*1000003+uint64(j.Run), known)
+		var plan *sim.FaultPlan
+		if j.Ref {
+			plan = &sim.FaultPlan{Pos: -1}
+		} else if j.Kind != "" {
+			plan = &sim.FaultPlan{Pos: j.Pos, Kind: j.Kind}
+		}
+		res := sim.RunScenario(t, mk(), tape, j.Seed*1000003+uint64(j.Run), known, plan)
 		w := res.World
 		l := RunLine{Run: j.Run, Job: j.ID, Steps: res.Steps, Incs: res.Incs, Sim: res.SimSeconds, LogHash: res.LogHash,
 			StateHash: w.AbstractState(), Writes: w.CountWrites(), Hooks: len(w.Hooks), Faults: w.FaultsFired, Probes: w.Probes,
-			Cfg: w.Cfg, TapeLen: len(res.Tape), Known: w.KnownSeen}
+			Cfg: w.Cfg, TapeLen: len(res.Tape), Known: w.KnownSeen, Pos: j.Pos, Kind: j.Kind}
+		if j.Ref {
+			l.Interactions = string(w.Interactions)
+		}
+		if plan != nil && j.Kind != "" && !plan.Fired {
+			l.NotFired = true
+		}
 		if res.Violation != nil {
 			l.Violation = res.Violation.String()
 			l.Prop = res.Violation.Prop
